@@ -109,7 +109,7 @@ def build_many(variants, outdir, groups):
         return dict(zip(variants, ex.map(lambda v: build(v, outdir, groups), variants)))
 
 
-def harness(binary, records, timeout=600, env=None):
+def harness(binary, records, timeout=7200, env=None):
     """feed call records to the harness, return the observed events (list of dicts)"""
     data = "".join(json.dumps({"e": r["e"], "in": r.get("in", {})}, separators=(",", ":")) + "\n" for r in records)
     e = dict(os.environ)
